@@ -49,7 +49,7 @@ def observe(graph, rng=None, seal_root=True):
                     h.update(raws[i])
             if h.digest() != fulls[n]:
                 diffs.append(f"node {n}: full identifier is not SHA-256(raw, sorted pre-task ids, init-task ids)")
-        case = {"g": graph, "streams": streams, "loops": {}, "pre": pre, "sealed": {}, "gen": {}}
+        case = {"g": graph, "streams": streams, "loops": {}, "pre": pre, "sealed": {}, "gen": {}, "defs": {}, "inst": {}}
         if seal_root:
             root = (rng or random).choice(sorted(objs))
             try:
